@@ -16,7 +16,7 @@ RULE = (
     "BlockMean.filter on all multisets of n <= 3 (thorough: 4) occupied sites of a 2x2 block layout in two input orders, plus every "
     "placement of 5 points with block populations (2,3), (3,2), (2,2,1) (needed to tell apart variance conventions and min/var "
     "pairings), x 1..3 components of non-constant data x weights {none, distinct} x uncertainty {False, True} x region {given, "
-    "inferred} x center_coordinates; variance_to_weights on every vector of length 1..4 over {0, 1e-16, 1e-15, 1e-14, 0.2, 1, 2, NaN} "
+    "inferred} x center_coordinates x representation {1-D float, mixed memory layouts, integer-dtype easting}; variance_to_weights on every vector of length 1..4 over {0, 1e-16, 1e-15, 1e-14, 0.2, 1, 2, NaN} "
     "as array / tuple of arrays / 2-D / read-only, tol default and 1e-3. Non-trivial: two blocks with different positive variance, "
     "or a variance vector with two distinct values above the tolerance."
 )
@@ -62,6 +62,10 @@ def cases(tier, seed):
                                 continue
                             yield dict(kind="blockmean", layout=[2, 2], sites=ms, order=order, ncomp=ncomp, w=w, unc=unc,
                                        region=region, center=center)
+                            if ncomp == 2 and not center and len(ms) % 2 == (0 if region == "given" else 0):
+                                for rep in ("mixed", "int_e"):
+                                    yield dict(kind="blockmean", layout=[2, 2], sites=ms, order=order, ncomp=ncomp, w=w, unc=unc,
+                                               region=region, center=center, rep=rep)
     for k in (1, 2, 3, 4):
         for vec in itertools.product(range(len(VV)), repeat=k):
             forms = ["array", "readonly"]
@@ -136,16 +140,29 @@ def run(case, rec):
     wts = None
     if case["w"]:
         wts = [np.array([[p + 1.0, (npts - p) + 0.5, 2.0 ** p][c] for p in range(npts)]) for c in range(ncomp)]
-    kw = dict(spacing=1.0, center_coordinates=case["center"], uncertainty=case["unc"])
+    rep = case.get("rep")
+    sc = 4.0 if rep == "int_e" else 1.0
+    if rep == "int_e":
+        e, n = e * 4.0, n * 4.0   # integer-valued easting with an integer dtype next to a float northing
+    kw = dict(spacing=1.0 * sc, center_coordinates=case["center"], uncertainty=case["unc"])
     if case["region"] == "given":
-        kw["region"] = (0.0, 2.0, 0.0, 2.0)
+        kw["region"] = (0.0, 2.0 * sc, 0.0, 2.0 * sc)
     d_arg = data[0] if ncomp == 1 else tuple(data)
     w_arg = None if wts is None else (wts[0] if ncomp == 1 else tuple(wts))
+    c_arg = (e, n)
+    if rep == "int_e":
+        c_arg = (e.astype(np.int64), n)
+    if rep == "mixed" and npts % 2 == 0:
+        shp = (2, npts // 2)
+        c_arg = (e.reshape(shp), n.reshape(shp))
+        d_arg = tuple(np.asfortranarray(d.reshape(shp)) for d in data)
+        if wts is not None:
+            w_arg = tuple(np.ascontiguousarray(w.reshape(shp).T).T for w in wts)
     before = [a.tobytes() for a in [e, n] + data + (wts or [])]
     bm = call(rec, vd.BlockMean, **kw)
     if raised(bm):
         return rec.check(False, "BlockMean() raised %r" % (bm,))
-    got = call(rec, bm.filter, (e, n), d_arg, w_arg)
+    got = call(rec, bm.filter, c_arg, d_arg, w_arg)
     after = [a.tobytes() for a in [e, n] + data + (wts or [])]
     rec.check(before == after, "BlockMean.filter modified its input arrays")
     if case["unc"] and not case["w"]:
@@ -171,7 +188,7 @@ def run(case, rec):
             want = B.reduce_exact("average", [data[c][i] for i in mem], wv)
             rec.check(B.close(gm[c][k], want), "block %d component %d: mean %r != %r" % (b, c, float(gm[c][k]), float(want)))
         if case["center"]:
-            rec.check(float(gc[0][k]) == (b % 2) + 0.5 and float(gc[1][k]) == (b // 2) + 0.5, "block %d: wrong centre" % b)
+            rec.check(float(gc[0][k]) == ((b % 2) + 0.5) * sc and float(gc[1][k]) == ((b // 2) + 0.5) * sc, "block %d: wrong centre" % b)
         else:
             rec.check(B.close(gc[0][k], B.reduce_exact("mean", [e[i] for i in mem])) and B.close(gc[1][k], B.reduce_exact("mean", [n[i] for i in mem])),
                       "block %d: coordinates are not the mean of its members" % b)
